@@ -11,7 +11,10 @@ CLAIMED = {
          'Theorems (closed under the global context): an exception at any point of a block commits nothing, leaves no '
          'transaction open and the connection reusable; for every statement sequence and every failure point k the committed '
          'database is unchanged; a failing statement has the same effect; an interrupted removal leaves exactly a prefix of '
-         'the per-lexicon blocks applied, each complete. What the theorems cannot show (that the code really wraps all '
+         'the per-lexicon blocks applied, each complete. From the add model (whose result type carries no database on failure): a '
+         'sense naming an undeclared synset, a relation with an unknown target and a duplicate entry id each make the add fail, and a '
+         'fault in any lexicon of a resource fails the whole call; duplicate synset/sense ids are NOT rejected (no UNIQUE index: '
+         'witnesses). What the theorems cannot show (that the code really wraps all '
          'statements of one add in one block, SQLite\'s rollback, the pooled connection) is covered by the trace tie and by '
          'raising at every progress callback, denying every INSERT/UPDATE/DELETE in turn and corrupting single references.',
          'Trusted: Coq kernel + vm_compute; SQLite rollback and Python sqlite3 transaction handling (modelled by Txn.v, '
